@@ -60,7 +60,48 @@ def strategy(params, shard, nshards):
         st.builds(lambda a, b: {"kind": "cof", "a": a, "bs": [b]}, st.integers(0, 127), st.integers(0, 127)),
         st.builds(lambda a, b: {"kind": "cof", "a": a, "bs": [b, b % 128, (128 + b) % 128, 127, 0]},
                   st.integers(-300, 500), st.one_of(st.integers(-130, -1), st.integers(-300, 500))),
+        # the tables are shared module-level objects: they must be intact after the rest of the library has used them
+        st.builds(lambda w, pitches, n: {"kind": "after_use", "workout": w, "pitches": pitches, "n": n},
+                  st.lists(st.sampled_from(["guess", "guess_keyed", "transpose", "bar_transpose", "load_key", "get_info"]), min_size=1, max_size=4),
+                  st.lists(st.integers(21, 108), min_size=0, max_size=6), st.integers(-30, 30)),
     )
+
+
+def _workout(out, case):
+    """ordinary library use that reads the shared tables (failures here are other properties' business: inconclusive)"""
+    from pbt import build, tok as T
+    from pbt.sut import Bar
+    notes, t = [], 0
+    for p in case["pitches"]:
+        notes.append([0, p, t, t + 12, 80])
+        t += 12
+    try:
+        for w in case["workout"]:
+            seq = build.sequence({"notes": notes, "meta": [["ks", 0, "D"]] if w == "guess_keyed" else [], "route": "rel", "pad": 96})
+            if w in ("guess", "guess_keyed"):
+                seq.rel.get_key_signature_guess()
+            elif w == "transpose":
+                seq.transpose(case["n"])
+            elif w == "bar_transpose":
+                Bar(seq, 4, 4, Key("Db")).transpose(case["n"])
+            elif w == "load_key":
+                import mido
+                from pbt.sut import MidiFile, Sequence
+                mf = mido.MidiFile(ticks_per_beat=24)
+                tr = mido.MidiTrack()
+                tr.append(mido.MetaMessage("key_signature", key="F#", time=0))
+                tr.append(mido.Message("note_on", note=60, velocity=64, time=0))
+                tr.append(mido.Message("note_off", note=60, velocity=0, time=24))
+                mf.tracks.append(tr)
+                m = MidiFile()
+                m.parse_mido(mf)
+                Sequence.sequences_load(midi_file=m)
+            elif w == "get_info":
+                tok = T.make_tokeniser({"num_tracks": 1, "pitch_range": [21, 108], "step_sizes": None, "note_values": None,
+                                        "velocity_bins": 1, **{f: True for f in T.FLAG_NAMES}})
+                tok.get_info(list(tok.dictionary)[:20])
+    except Exception as e:
+        out.inconclusive = f"workout-raised:{type(e).__name__}"
 
 
 def _transposed_ok(out, tag, key, n, res):
@@ -138,6 +179,38 @@ def check(case):
             if land != b % 12:
                 out.fail("cof-landing", f"from_distance({a}, distance({a},{b})={d}) = {land} != {b % 12}")
                 return out
+    elif kind == "after_use":
+        _workout(out, case)
+        if out.inconclusive:
+            return out
+        for k in KEYS:
+            key = Key(k)
+            try:
+                tonic, scale = _tonic_scale(key)
+            except Exception as e:
+                out.fail("table-entry-missing", f"{key} after {case['workout']}: {type(e).__name__}: {e}")
+                return out
+            if scale != frozenset((tonic + d) % 12 for d in MAJOR) or len(MusicMapping.KeyNoteMapping[key][0]) != 7:
+                out.fail("scale-not-major", f"{key} after {case['workout']}: tonic {tonic} scale {sorted(scale)}")
+                return out
+            for n in range(-13, 14):
+                try:
+                    res = Key.transpose_key(key, n)
+                except Exception as e:
+                    out.fail("transpose-raises", f"transpose_key({key},{n}) after {case['workout']} raised {type(e).__name__}: {e}")
+                    return out
+                try:
+                    ok = _transposed_ok(out, "transpose", key, n, res)
+                except Exception as e:
+                    out.fail("table-entry-missing", f"transpose_key({key},{n})={res} after {case['workout']}: {type(e).__name__}: {e}")
+                    return out
+                if not ok:
+                    return out
+        if len(MusicMapping.KeyNoteMapping) != 15 or sorted(k.value for k in MusicMapping.KeyNoteMapping) != sorted(KEYS):
+            out.fail("table-keys-changed", f"KeyNoteMapping holds {[k.value for k in MusicMapping.KeyNoteMapping]} after {case['workout']}")
+        pos = [CircleOfFifths.get_position(p) for p in range(12)]
+        if sorted(x % 12 for x in pos) != list(range(12)):
+            out.fail("cof-positions-not-a-permutation", f"{pos} after {case['workout']}")
     elif kind == "from_distance":
         a = case["a"]
         for d in case["ds"]:
